@@ -174,6 +174,48 @@ def case_cov(B, cfg):
                '%r vs %d+%d' % (np.shape(red), nb, nt))
         if np.shape(red) == (nb + nt,):
             B.eq_array('sens (reduced)', red, g)
+    if kind == 'pooled' and not cfg.get('zero'):
+        # pooled dimensions have no bottom-level parameters: the individual
+        # parameters are vartheta_i(theta) themselves, so the upstream
+        # sensitivities reach (vartheta_0, beta) through the linear map
+        G = [[B.var('G%d_%d' % (i, d)) for d in range(n_dim)]
+             for i in range(n_ids)]
+
+        def Tp(xs):
+            p_ = m.compute_individual_parameters(
+                ps.arr(B, xs), ps.arr(B, eta), covariates=cov)
+            val = 0
+            for i in range(n_ids):
+                for d in range(n_dim):
+                    val = val + G[i][d] * p_[i][d]
+            return val
+        _, g = B.grad(Tp, theta)
+        score, dpsi, dth = m.compute_sensitivities(
+            ps.arr(B, theta), ps.arr(B, obs), covariates=cov,
+            dlogp_dpsi=ps.arr(B, G))
+        B.eq('S1 score = value', score, v)
+        B.eq_array('pooled: sens d/d(vartheta_0, beta) with upstream '
+                   'sensitivities', dth, g)
+        score2, red = m.compute_sensitivities(
+            ps.arr(B, theta), ps.arr(B, obs), covariates=cov,
+            dlogp_dpsi=ps.arr(B, G), reduce=True)
+        nb, nt = m.n_hierarchical_parameters(n_ids)
+        B.fact('reduced length', np.shape(red) == (nb + nt,),
+               '%r vs %d+%d' % (np.shape(red), nb, nt))
+        if np.shape(red) == (nb + nt,) and nb == 0:
+            B.eq_array('pooled: sens (reduced)', red, g)
+        # per-individual evaluation of the underlying model + chain rule
+        for k, (pi_, ci) in enumerate(parsed):
+            r = 0
+            for i in range(n_ids):
+                # (the pooled model reports the upstream part under the
+                # individual values, which here *are* its parameter)
+                _, dp, di = one.compute_sensitivities(
+                    ps.arr(B, vth[i]), ps.arr(B, [obs[i]]),
+                    dlogp_dpsi=ps.arr(B, [G[i]]))
+                r = r + (dp[0][pi_ % n_dim] + di[pi_]) * chis[i][ci]
+            B.eq('pooled: d/d beta[%d] = sum_i underlying_i * chi_i' % k,
+                 dth[n_pop + k], r)
     # sampling: one draw per individual from the underlying sampler
     if B.symbolic and cfg.get('sample', True):
         rng = B.new_rng()
